@@ -606,7 +606,8 @@ pcgssvx(int_t nprocs, superlumt_options_t *superlumt_options, SuperMatrix *A,
 	    /* Compute the reciprocal pivot growth factor of the leading
 	       rank-deficient *info columns of A. */
 	    *recip_pivot_growth = cPivotGrowth(*info, AA, perm_c, L, U);
-	}
+	    superlu_cQuerySpace(nprocs, L, U, panel_size, superlu_memusage);
+	} /* else: the factorization ran out of memory, L and U do not exist */
     } else {
 
 	/* ------------------------------------------------------------
@@ -670,9 +671,8 @@ pcgssvx(int_t nprocs, superlumt_options_t *superlumt_options, SuperMatrix *A,
 	   working precision.*/
 	if ( *rcond < slamch_("E") ) *info = A->ncol + 1;
 	
+	superlu_cQuerySpace(nprocs, L, U, panel_size, superlu_memusage);
     }
-
-    superlu_cQuerySpace(nprocs, L, U, panel_size, superlu_memusage);
 
     /* ------------------------------------------------------------
        Deallocate storage after factorization.
